@@ -690,9 +690,10 @@ func checkReadTotal(c *core.Ctx, blob []byte, pi *core.PanicInfo, alloc uint64) 
 						listed += l.Len
 					}
 				}
-				// (16 x: the decoder keeps every decoded string, however short, in a buffer of its
-				// own of at least half a kilobyte)
-				if listed > 4*uint64(len(blob)) && peak <= core.AllocBudget(len(blob))+16*listed {
+				// (64 x: the decoder keeps every decoded string, however short, in a buffer of its
+				// own of at least half a kilobyte - a one-byte header value costs 9 bytes in the
+				// file and some 600 in memory)
+				if listed > 4*uint64(len(blob)) && peak <= core.AllocBudget(len(blob))+64*listed {
 					c.Violation("alloc-by-aliased-index-entries", "bundle.Read", "bundle.Read needs %d bytes of live memory at its peak on a %d-byte input whose index lists locations of %d bytes in all (the same response designated many times: one copy per location)", peak, len(blob), listed)
 				}
 			}
